@@ -226,7 +226,7 @@ TDupHang ==
 
 TPanic ==
   /\ IsEvent("panic")
-  /\ Skip(IF Len(Line.ops) = 0 \/ Line.ops = <<"SEQUENCE">> THEN "C19:server-panic"
+  /\ Skip(IF Len(Line.ops) = 0 \/ Line.ops = <<"SEQUENCE">> \/ ~Line.fresh THEN "C19:server-panic-while-answering-a-retransmission-or-duplicate"
           ELSE IF \E j \in 1 .. Len(Line.ops) : Line.ops[j] \in {"LOCK", "LOCKT", "LOCKU"}
             THEN "C20:server-panic-in-compound-ending-with-" \o Line.ops[Len(Line.ops)]
           ELSE "C18:server-panic-in-compound-ending-with-" \o Line.ops[Len(Line.ops)])
